@@ -317,6 +317,26 @@ def r_sigtrans_hist(pb, z, a):
 Op("signal_transform_history", _float,
    lambda d, i: [d(st.sampled_from([{"k": 3.0, "b": 1.0}, {"k": 2.0}, {"b": 0.5}, {}, {"k": 0.5, "b": -1.0}])) for _ in range(d(st.integers(2, 3)))],
    r_sigtrans_hist, needs_len=0)
+def _cast(x, dtype=None, name="unit", meta=1.0):
+    """an array function whose OWN keywords happen to be called like keywords of dask.array.map_blocks"""
+    y = x if dtype is None else x.astype(dtype)
+    return y * (2 if name == "double" else 1) * meta
+
+
+def r_sigtrans_named(pb, z, a):
+    f = pb.signal_transform(_cast)
+    kw = {}
+    if a["dtype"]:
+        kw["dtype"] = np.complex64 if np.iscomplexobj(z.data) else np.float32
+    if a["name"]:
+        kw["name"] = "double"
+    if a["meta"]:
+        kw["meta"] = 0.5
+    return f(z, **kw)
+
+
+Op("signal_transform_named_kwargs", _float, lambda d, i: {"dtype": d(st.booleans()), "name": d(st.booleans()), "meta": d(st.booleans())}, r_sigtrans_named,
+   needs_len=0)
 Op("signal_transform", _float, lambda d, i: d(st.sampled_from([2, 3, 0.5])), r_sigtrans, needs_len=0)
 Op("like", _always, lambda d, i: None, lambda pb, z, a: type(z).like(z), needs_len=0)
 Op("compute", _always, lambda d, i: None, lambda pb, z, a: z.compute(), needs_len=0)
